@@ -355,6 +355,10 @@ def judge_consumer(world, h, relaxed):
             continue
         if not ex['running']:
             continue            # expressing on a face that is down: NetworkError is documented; not C03's business
+        if a['out'] == 'sync-raise' and ex.get('send_fails') and a.get('exc') == 'OSError':
+            # the transport refused the packet and express() said so: the Interest was never expressed - nothing of it may
+            # stay behind (the leftover rule below)
+            continue
         if a['out'] == 'sync-raise':
             world.violate('C03', 'internal-error', comp, a.get('where', '?'),
                           f'express() of Interest {iid} raised {a.get("msg")} although the face was running')
